@@ -258,7 +258,7 @@ VERUS = {
                  desc='RawTable::get_many_mut on extracted text, pointers into the table kept as bucket indices, for any N and ANY result of the N lookups (unlawful equality closures included): turning the N pointers into N exclusive references requires that no two of them are the same bucket -- the precondition of that conversion -- and the duplicate check of the real text establishes it on every path that returns (the other path panics)',
                  paired={}),
     'dropglue': dict(props=['C03', 'C10', 'C02'], tier='quick',
-                     desc='the drop / clear glue on extracted text (RawTableInner::drop_inner_table, Drop for RawTable, RawTable::clear incl. its scope guard -- which is not forgotten, so its closure runs when the block ends --, RawTable::clear_no_drop, Drop for RawDrain) against the contracts of drop_elements (unit iter), clear_no_drop (unit ctrl) and free_buckets, whose preconditions make double drop, leak and double free into obligations: an allocated table has every element dropped once and is then freed once, the unallocated singleton is left alone, clear drops everything and then resets the control bytes (an already empty table is left as it is), a drain drops what is left, resets its table and moves a valid empty table back into the map; drain_iter_from moves the real table into the drain and leaves the unallocated singleton behind (so a leaked drain leaves a valid empty map). Also RawTable::into_iter, into_iter_from and Drop for RawIntoIter: the owning iterator takes the block exactly when the table had one, and its drop first drops what was not yielded (once) and then gives the block back (once, and only if there is one)',
+                     desc='the drop / clear glue on extracted text (RawTableInner::drop_inner_table, Drop for RawTable, RawTable::clear incl. its scope guard -- which is not forgotten, so its closure runs when the block ends --, RawTable::clear_no_drop, Drop for RawDrain) against the contracts of drop_elements (unit iter), clear_no_drop (unit ctrl) and free_buckets, whose preconditions make double drop, leak and double free into obligations: an allocated table has every element dropped once and is then freed once, the unallocated singleton is left alone, clear drops everything and then resets the control bytes (an already empty table is left as it is), a drain drops what is left, resets its table and moves a valid empty table back into the map; drain_iter_from moves the real table into the drain and leaves the unallocated singleton behind (so a leaked drain leaves a valid empty map). Also RawTable::into_iter, into_iter_from and Drop for RawIntoIter: the owning iterator takes the block exactly when the table had one, and its drop first drops what was not yielded (once) and then gives the block back (once, and only if there is one); the scope-guard closure of prepare_resize gives every allocated table back once, also one with zero items, and never the singleton',
                      paired={}),
     'clone': dict(props=['C11', 'C02'], tier='quick',
                   desc='RawTable::clone_from_impl on extracted text (no-unwind path; its guard closure is in unit glue), for every table size and both widths, element identities ghost, T::clone an arbitrary function of the element: the control bytes of the target are the source\'s verbatim (so tombstones, probe chains and reachability are reproduced), items and growth_left are copied, and every FULL bucket holds a clone of the source\'s element in the same bucket; every control-byte and bucket access in bounds; terminates',
